@@ -58,9 +58,12 @@ func startServer(file string, cache bool, preload bool) *server {
 		s := &server{addr: fmt.Sprintf("127.0.0.1:%d", freePort()), done: make(chan struct{}), quit: make(chan struct{})}
 		s.debug = fmt.Sprintf("127.0.0.1:%d", freePort())
 		args := []string{"server", "-l", s.addr, "-d", s.debug, "-f", file, fmt.Sprintf("-c=%v", cache), fmt.Sprintf("-p=%v", preload)}
+		nth := serverStarts.Add(1)
+		if nth%3 == 0 {
+			args = append(args, "-v") // the global verbosity flag changes what is logged, nothing else
+		}
 		s.cmd = exec.Command(updogBin, args...)
 		s.cmd.Env = os.Environ()
-		nth := serverStarts.Add(1)
 		if base := os.Getenv("VERIF_RACE_LOG"); base != "" {
 			// a -race build of the server reports into the same log family as the harness itself
 			s.cmd.Env = append(s.cmd.Env, "GORACE=log_path="+base+".server exitcode=0")
@@ -711,6 +714,7 @@ func runC14(rep *Report, r *Rng, tier string) {
 			srv.stop()
 		}
 	}()
+	descriptorPressure(rep, "C14", path, &probe, "ok id=1 "+o.Ask("idx q "+probe.Toks()))
 	for i := 0; i < n; i++ {
 		base := exToWT(genExpr(r, pool, 1+r.Intn(4), true))
 		c := &HostileCase{Data: d, Probe: probe}
@@ -932,4 +936,105 @@ func burstOnFreshServer(srv *server, probe *QCase, want string, rep *Report) boo
 		}
 	}
 	return true
+}
+
+// descriptorPressure: the real server is started with a small file-descriptor limit and then hit by a burst of clients,
+// each on its own connection, more than it has descriptors for. Individual connections may be refused or time out; the
+// process must stay up and answer once the burst is over.
+func descriptorPressure(rep *Report, prop, path string, probe *QCase, want string) {
+	addr := fmt.Sprintf("127.0.0.1:%d", freePort())
+	dbg := fmt.Sprintf("127.0.0.1:%d", freePort())
+	cmd := exec.Command("/bin/sh", "-c", fmt.Sprintf("ulimit -n 48; exec %q server -l %s -d %s -f %q", updogBin, addr, dbg, path))
+	var errb strings.Builder
+	cmd.Stderr = &errb
+	if err := cmd.Start(); err != nil {
+		rep.Note("descriptor-pressure skipped: %v", err)
+		return
+	}
+	exited := make(chan error, 1)
+	go func() { exited <- cmd.Wait() }()
+	defer func() {
+		cmd.Process.Kill()
+		select {
+		case <-exited:
+		case <-time.After(5 * time.Second):
+		}
+	}()
+	dial := func() (*grpc.ClientConn, proto.QueryServiceClient) {
+		conn, err := grpc.NewClient(addr, grpc.WithTransportCredentials(insecure.NewCredentials()))
+		if err != nil {
+			return nil, nil
+		}
+		return conn, proto.NewQueryServiceClient(conn)
+	}
+	ask := func(cl proto.QueryServiceClient, d time.Duration) string {
+		ctx, cancel := context.WithTimeout(context.Background(), d)
+		defer cancel()
+		resp, err := cl.Query(ctx, &proto.QueryRequest{Queries: []*proto.Query{qcaseToProto(probe, 0)}})
+		if err != nil {
+			return "rpc-error"
+		}
+		var parts []string
+		for _, r := range resp.Results {
+			parts = append(parts, fmt.Sprintf("id=%d %s", r.QueryId, resString(verifhook.ToResult(r), nil)))
+		}
+		return "ok " + strings.Join(parts, " ; ")
+	}
+	// wait until it answers
+	conn0, cl0 := dial()
+	if conn0 == nil {
+		return
+	}
+	defer conn0.Close()
+	up := false
+	for i := 0; i < 100; i++ {
+		if ask(cl0, 300*time.Millisecond) == want {
+			up = true
+			break
+		}
+		select {
+		case <-exited:
+			rep.Note("descriptor-pressure: server did not start under ulimit -n 48: %s", trunc(errb.String(), 300))
+			return
+		default:
+		}
+		time.Sleep(50 * time.Millisecond)
+	}
+	if !up {
+		rep.Note("descriptor-pressure: server did not come up")
+		return
+	}
+	var wg sync.WaitGroup
+	for g := 0; g < 120; g++ {
+		wg.Add(1)
+		go func() {
+			defer wg.Done()
+			conn, cl := dial()
+			if conn == nil {
+				return
+			}
+			defer conn.Close()
+			ask(cl, 3*time.Second) // may fail: the server is out of descriptors for a moment
+		}()
+	}
+	wg.Wait()
+	time.Sleep(1500 * time.Millisecond) // accept back-off
+	got := ""
+	for i := 0; i < 10 && got != want; i++ {
+		got = ask(cl0, 2*time.Second)
+		if got != want {
+			time.Sleep(300 * time.Millisecond)
+		}
+	}
+	died := false
+	select {
+	case <-exited:
+		died = true
+	default:
+	}
+	rep.Eval("descriptor-pressure", true)
+	rep.Count("descriptor-pressure-runs")
+	if died || got != want {
+		rep.Violate(Violation{Kind: "fault", Signature: prop + ":server-died", What: fmt.Sprintf("server with a 48-descriptor limit after a burst of 120 one-request clients: exited=%v, probe afterwards: %s; stderr: %s", died, trunc(got, 100), trunc(errb.String(), 400)), Expected: trunc(want, 100), Actual: trunc(got, 100), Case: map[string]any{"scenario": "descriptor pressure", "nofile": 48, "clients": 120}})
+	}
 }
